@@ -8,6 +8,9 @@ from spec import Contract, V3, LoopContract
 from values import QForall, ObjLV, Ptr
 
 PROP = 'C18'
+# the reader is compiled in every contact-model configuration: a tag must not be read in one configuration only
+CONFIGS = [{'SIMUCELL3D_VERIF_CONTACT_MODEL_INDEX': 1}, {'SIMUCELL3D_VERIF_CONTACT_MODEL_INDEX': 0}, {'SIMUCELL3D_VERIF_CONTACT_MODEL_INDEX': 2},
+           {'SIMUCELL3D_VERIF_CONTACT_MODEL_INDEX': 1, 'SIMUCELL3D_VERIF_DYNAMIC_MODEL_INDEX': 1}]
 I = z3.IntSort(); R = z3.RealSort(); B = z3.BoolSort()
 
 # tag, field of the structure, conversion, admissible values (None = any)
@@ -257,7 +260,7 @@ def post_lmr_ctor(C):
             ('edge-swap-switch', n.f(C.this, L + 'enable_edge_swap_operation_') == C.val('enable_edge_swap_operation'))]
 
 
-def build(reg):
+def build(reg, cfg=None):
     reg.add(Contract('parameter_reader::get_string_value', PROP, pre=pre_gsv, post=post_gsv, safety={'null-deref'}, assigns=[]))
     reg.add(Contract('parameter_reader::read_numerical_parameters', PROP, post=post_numerical, split_heap_ifs=False))
     # 'narrowing': every integer conversion that can lose the value (std::stoi's int stored in a short id field) must be shown in range
